@@ -865,6 +865,9 @@ class Job:
 
         """
         with self._lock:
+            # The buffered mode must not keep referring to the document file
+            # that is about to be removed.
+            _flush_buffered_documents()
             try:
                 shutil.rmtree(self.path)
             except OSError as error:
@@ -872,11 +875,10 @@ class Job:
                     raise
             else:
                 if self._document is not None:
-                    try:
+                    # Reset the data held in memory. There is no file left to
+                    # write to (and nothing to be put into the buffer).
+                    with self._document._suspend_sync:
                         self._document.clear()
-                    except OSError as error:
-                        if error.errno != errno.ENOENT:
-                            raise error
                     self._document = None
                 self._stores = None
 
